@@ -30,10 +30,12 @@
 (*   cli_no_clean       the group name is used as typed (file name = raw text)                        *)
 (*   cli_group_as_sample  capture_samples[group].add(group)                                           *)
 (*   impl               = the deviations found in the code at the pinned commit (D500..D503)           *)
+(* Mode = "split" is the second tool, split_bam_by_cluster.py: see the section in front of ParseRow.   *)
 EXTENDS SampleRoutingP, Json
 
 CONSTANTS SampleNames, NoSM, AsgSamples, GroupNames, MaxRecs, MaxGroups, MaxPerGroup, HeadMax, WRGs, Prefix,
-          StemWithBam, Mode, MaxLines, Variant
+          StemWithBam, Mode, MaxLines, Variant,
+          NoCols, AddChrs, DupFlags, LowQFlags, PosMax, MapqReading          \* Mode = "split" only (split_bam_by_cluster.py)
 
 AsFound == {"missing_sm_crash", "replace_all_bam", "dup_same_group", "head_after_write"}
 Dev(d) == Variant = d \/ (Variant = "impl" /\ d \in AsFound)
@@ -46,24 +48,39 @@ Name(g) == IF Dev("replace_all_bam")
 RG(g) == Prefix \o g
 
 SmChoices == SampleNames \cup (IF NoSM THEN {""} ELSE {})
-MkRecs(q) == [i \in DOMAIN q |-> [id |-> i, sm |-> q[i], rg |-> "old", dg |-> "d" \o ToString(i)]]
+MkRecs(q) == [i \in DOMAIN q |-> [id |-> i, sm |-> q[i], rg |-> "old", dg |-> "d" \o ToString(i), dup |-> FALSE, lowq |-> FALSE, tid |-> 0, pos |-> i]]
+SplitRecChoices == [sm : SmChoices, dup : DupFlags, lowq : LowQFlags, pos : 1 .. PosMax]
+MkSplitRecs(q) == [i \in DOMAIN q |-> [id |-> i, sm |-> q[i].sm, rg |-> "old", dg |-> "d" \o ToString(i), dup |-> q[i].dup, lowq |-> q[i].lowq,
+                                       tid |-> 0, pos |-> q[i].pos]]
+RowChoices == [s : AsgSamples \cup {"Missing"}, c : GroupNames]
+HeaderRow == [s |-> "cell", c |-> "cluster"]
 Entries == { [g |-> g, ss |-> ss] : g \in GroupNames, ss \in BoundedSeq(AsgSamples, MaxPerGroup) }
 AsgChoices == { q \in BoundedSeq(Entries, MaxGroups) : \A i, j \in DOMAIN q : q[i].g = q[j].g => i = j }   \* dictionary keys are distinct
 RawGroups == { <<"g">>, <<"h">>, <<"g", "/">>, <<"'">>, <<"g", " ", "h">> }
 LineChoices == { [s |-> s, hasg |-> FALSE, g |-> <<>>] : s \in AsgSamples }
                \cup { [s |-> s, hasg |-> TRUE, g |-> g] : s \in AsgSamples, g \in RawGroups }
 
-VARIABLES pc, inp, lines, asg, head, wrg, li, cs, corder, gi, mi, mj, s2g, files, open, ri, written, wpg, raised
-vars == <<pc, inp, lines, asg, head, wrg, li, cs, corder, gi, mi, mj, s2g, files, open, ri, written, wpg, raised>>
+VARIABLES pc, inp, lines, asg, head, wrg, li, cs, corder, gi, mi, mj, s2g, files, open, ri, written, wpg, raised, sx
+vars == <<pc, inp, lines, asg, head, wrg, li, cs, corder, gi, mi, mj, s2g, files, open, ri, written, wpg, raised, sx>>
 
 Empty == [x \in {} |-> 0]
-Init == /\ inp \in { MkRecs(q) : q \in BoundedSeq(SmChoices, MaxRecs) }
+NoSx == [rows |-> <<>>, nocol |-> FALSE, chr |-> FALSE, indexed |-> {}]
+InitSplit == /\ inp \in { MkSplitRecs(q) : q \in BoundedSeq(SplitRecChoices, MaxRecs) }
+             /\ sx \in [rows : BoundedSeq(RowChoices, MaxLines), nocol : NoCols, chr : AddChrs, indexed : {{}}]
+             /\ head = -1 /\ wrg = FALSE /\ lines = <<>> /\ asg = <<>> /\ pc = "sparse"
+             /\ li = 1
+             /\ cs = Empty /\ corder = <<>> /\ gi = 1 /\ mi = 1 /\ mj = 1 /\ s2g = Empty /\ files = Empty
+             /\ open = {} /\ ri = 1 /\ written = 0 /\ wpg = Empty /\ raised = ""
+InitRoute ==
+        /\ inp \in { MkRecs(q) : q \in BoundedSeq(SmChoices, MaxRecs) }
+        /\ sx = NoSx
         /\ head \in {-1} \cup (0 .. HeadMax)
         /\ wrg \in WRGs
         /\ IF Mode = "cli" THEN /\ lines \in BoundedSeq(LineChoices, MaxLines) /\ asg = <<>> /\ pc = "parse"
                            ELSE /\ lines = <<>> /\ asg \in AsgChoices /\ pc = "open"
         /\ li = 1 /\ cs = Empty /\ corder = <<>> /\ gi = 1 /\ mi = 1 /\ mj = 1 /\ s2g = Empty /\ files = Empty
         /\ open = {} /\ ri = 1 /\ written = 0 /\ wpg = Empty /\ raised = ""
+Init == IF Mode = "split" THEN InitSplit ELSE InitRoute
 
 (* the P-level reading of the input *)
 A == IF Mode = "cli" THEN RelOfLines(lines) ELSE RelOfAsg(asg)
@@ -83,7 +100,7 @@ ParseLine ==
                /\ corder' = IF g \in DOMAIN cs THEN corder ELSE Append(corder, g)
                /\ li' = li + 1
                /\ UNCHANGED <<asg, pc>>
-    /\ UNCHANGED <<inp, lines, head, wrg, gi, mi, mj, s2g, files, open, ri, written, wpg, raised>>
+    /\ UNCHANGED <<inp, lines, head, wrg, gi, mi, mj, s2g, files, open, ri, written, wpg, raised, sx>>
 
 OpenHandle ==
     /\ pc = "open"
@@ -96,7 +113,7 @@ OpenHandle ==
                /\ open' = open \cup {Name(g)}
                /\ wpg' = wpg @@ (g :> 0)
                /\ gi' = gi + 1 /\ pc' = pc
-    /\ UNCHANGED <<inp, lines, asg, head, wrg, li, cs, corder, mi, mj, s2g, ri, written, raised>>
+    /\ UNCHANGED <<inp, lines, asg, head, wrg, li, cs, corder, mi, mj, s2g, ri, written, raised, sx>>
 
 MapSample ==
     /\ pc = "map"
@@ -110,7 +127,7 @@ MapSample ==
                     THEN s2g' = [s2g EXCEPT ![s] = g] /\ mj' = mj + 1 /\ UNCHANGED <<mi, pc, raised>>
                     ELSE raised' = "ValueError" /\ pc' = "done" /\ UNCHANGED <<mi, mj, s2g>>
                ELSE s2g' = s2g @@ (s :> g) /\ mj' = mj + 1 /\ UNCHANGED <<mi, pc, raised>>
-    /\ UNCHANGED <<inp, lines, asg, head, wrg, li, cs, corder, gi, files, open, ri, written, wpg>>
+    /\ UNCHANGED <<inp, lines, asg, head, wrg, li, cs, corder, gi, files, open, ri, written, wpg, sx>>
 
 HeadReached(w) == head # -1 /\ (IF Dev("head_off_by_one") THEN w > head ELSE w >= head)
 WriteTo(g, r) ==
@@ -141,15 +158,90 @@ Route ==
                       ELSE WriteTo(g, r) /\ ri' = ri + 1 /\ UNCHANGED <<pc, raised>>
                  ELSE /\ WriteTo(g, r) /\ ri' = ri + 1 /\ raised' = raised
                       /\ pc' = IF Dev("head_after_write") /\ HeadReached(written + 1) THEN "close" ELSE pc
-    /\ UNCHANGED <<inp, lines, asg, head, wrg, li, cs, corder, gi, mi, mj, s2g, open>>
+    /\ UNCHANGED <<inp, lines, asg, head, wrg, li, cs, corder, gi, mi, mj, s2g, open, sx>>
 
 CloseHandle ==
     /\ pc = "close"
     /\ IF open = {} THEN pc' = "done" /\ open' = open
        ELSE open' = open \ {CHOOSE f \in open : TRUE} /\ pc' = pc
-    /\ UNCHANGED <<inp, lines, asg, head, wrg, li, cs, corder, gi, mi, mj, s2g, files, ri, written, wpg, raised>>
+    /\ UNCHANGED <<inp, lines, asg, head, wrg, li, cs, corder, gi, mi, mj, s2g, files, ri, written, wpg, raised, sx>>
 
-Next == ParseLine \/ OpenHandle \/ MapSample \/ Route \/ CloseHandle
+---------------------------------------------------------------------------------------------------
+(* Mode = "split": split_bam_by_cluster.py main().  Same shape - build the sample map, open one file per cluster, route every   *)
+(* record, close - with these differences: the annotation file (first line = column names unless --annot_no_colnames, a sample  *)
+(* on two lines is refused BEFORE any file is opened), duplicate-flagged records are skipped, a record without the tag is       *)
+(* looked up under the name "Missing", the records go to <bname>.<cluster>.unsorted.bam which is sorted into                     *)
+(* <bname>.<cluster>.sorted.bam, indexed and removed; --add_chr_prefix renames the contigs of the header; -mapq is parsed and   *)
+(* not used (MapqReading = "ignored"; "filter" is the other admissible reading of the option).                                  *)
+(* deviations: split_skip_always / split_skip_never (column-name line), split_dup_last_wins, split_keep_dups,                    *)
+(*   split_no_missing_name (record without the tag skipped although "Missing" is listed), split_no_sort, split_no_cleanup,       *)
+(*   split_no_index, split_prefix_some (header renamed only for the first cluster), split_first_cluster_all                      *)
+AnnotLines == IF sx.nocol THEN sx.rows ELSE <<HeaderRow>> \o sx.rows
+SStem == "in."
+Tmp(c) == SStem \o c \o ".unsorted.bam"
+Srt(c) == SStem \o c \o ".sorted.bam"
+Eligible(r) == ~r.dup /\ (MapqReading = "ignored" \/ ~r.lowq)
+RouteKey(r) == IF r.sm = "" THEN "Missing" ELSE r.sm
+
+ParseRow ==
+    /\ pc = "sparse"
+    /\ LET first == IF Dev("split_skip_always") THEN 2 ELSE IF Dev("split_skip_never") THEN 1       \* the first line holds the column
+                 ELSE IF sx.nocol THEN 1 ELSE 2 IN                                                    \* names unless --annot_no_colnames
+       IF (IF li < first THEN first ELSE li) > Len(AnnotLines)
+       THEN /\ pc' = "sopen" /\ corder' = SetToSeq({ s2g[s] : s \in DOMAIN s2g }) /\ UNCHANGED <<li, s2g, raised>>
+       ELSE LET k == IF li < first THEN first ELSE li
+                row == AnnotLines[k]
+            IN IF row.s \in DOMAIN s2g
+               THEN IF Dev("split_dup_last_wins")
+                    THEN s2g' = [s2g EXCEPT ![row.s] = row.c] /\ li' = k + 1 /\ UNCHANGED <<pc, corder, raised>>
+                    ELSE raised' = "Exception" /\ pc' = "done" /\ UNCHANGED <<li, s2g, corder>>
+               ELSE s2g' = s2g @@ (row.s :> row.c) /\ li' = k + 1 /\ UNCHANGED <<pc, corder, raised>>
+    /\ UNCHANGED <<inp, lines, asg, head, wrg, cs, gi, mi, mj, files, open, ri, written, wpg, sx>>
+
+OpenCluster ==
+    /\ pc = "sopen"
+    /\ IF gi > Len(corder) THEN pc' = "sloop" /\ UNCHANGED <<gi, files, open>>
+       ELSE LET c == corder[gi]
+                chr == sx.chr /\ (~Dev("split_prefix_some") \/ gi = 1)
+            IN /\ files' = files @@ (Tmp(c) :> [rgids |-> InRG, recs |-> <<>>, chr |-> chr])
+               /\ open' = open \cup {Tmp(c)} /\ gi' = gi + 1 /\ pc' = pc
+    /\ UNCHANGED <<inp, lines, asg, head, wrg, li, cs, corder, mi, mj, s2g, ri, written, wpg, raised, sx>>
+
+RouteSplit ==
+    /\ pc = "sloop"
+    /\ IF ri > Len(inp) THEN pc' = "sfin" /\ gi' = 1 /\ UNCHANGED <<ri, files, written>>
+       ELSE LET r == inp[ri]
+                key == IF r.sm = "" /\ Dev("split_no_missing_name") THEN "" ELSE RouteKey(r)
+                o == [id |-> r.id, sm |-> IF Eligible(r) THEN RouteKey(r) ELSE "", dg |-> r.dg, rg |-> r.rg]
+            IN IF (~Eligible(r) /\ ~(r.dup /\ Dev("split_keep_dups"))) \/ key \notin DOMAIN s2g
+               THEN IF Dev("split_first_cluster_all") /\ Len(corder) > 0 /\ Eligible(r)
+                    THEN files' = [files EXCEPT ![Tmp(corder[1])].recs = Append(@, o)] /\ written' = written + 1 /\ ri' = ri + 1 /\ UNCHANGED <<pc, gi>>
+                    ELSE ri' = ri + 1 /\ UNCHANGED <<pc, gi, files, written>>
+               ELSE /\ files' = [files EXCEPT ![Tmp(s2g[key])].recs = Append(@, o)]
+                    /\ written' = written + 1 /\ ri' = ri + 1 /\ UNCHANGED <<pc, gi>>
+    /\ UNCHANGED <<inp, lines, asg, head, wrg, li, cs, corder, mi, mj, s2g, open, wpg, raised, sx>>
+
+PosOfId(id) == inp[id].pos
+FinishCluster ==                              \* close, sort into the final file, index
+    /\ pc = "sfin"
+    /\ IF gi > Len(corder) THEN pc' = "sclean" /\ gi' = 1 /\ UNCHANGED <<files, open, sx>>
+       ELSE LET c == corder[gi]
+                srt == IF Dev("split_no_sort") THEN files[Tmp(c)].recs
+                       ELSE SortSeq(files[Tmp(c)].recs, LAMBDA a, b : PosOfId(a.id) < PosOfId(b.id))
+            IN /\ files' = files @@ (Srt(c) :> [files[Tmp(c)] EXCEPT !.recs = srt])
+               /\ open' = open \ {Tmp(c)}
+               /\ sx' = IF Dev("split_no_index") THEN sx ELSE [sx EXCEPT !.indexed = @ \cup {Srt(c)}]
+               /\ gi' = gi + 1 /\ pc' = pc
+    /\ UNCHANGED <<inp, lines, asg, head, wrg, li, cs, corder, mi, mj, s2g, ri, written, wpg, raised>>
+
+CleanCluster ==                               \* remove the unsorted temporary file
+    /\ pc = "sclean"
+    /\ IF gi > Len(corder) THEN pc' = "done" /\ UNCHANGED <<gi, files>>
+       ELSE /\ files' = IF Dev("split_no_cleanup") THEN files ELSE [f \in DOMAIN files \ {Tmp(corder[gi])} |-> files[f]]
+            /\ gi' = gi + 1 /\ pc' = pc
+    /\ UNCHANGED <<inp, lines, asg, head, wrg, li, cs, corder, mi, mj, s2g, open, ri, written, wpg, raised, sx>>
+
+Next == ParseLine \/ OpenHandle \/ MapSample \/ Route \/ CloseHandle \/ ParseRow \/ OpenCluster \/ RouteSplit \/ FinishCluster \/ CleanCluster
 Spec == Init /\ [][Next]_vars
 
 ---------------------------------------------------------------------------------------------------
@@ -173,8 +265,27 @@ Inv_X05_Step ==
     /\ Ok => files = ExpectedOut(A, G, inp, head, wrg, Prefix, InStr, InRG)
     /\ (pc = "loop") => ~Conflict(A)
 
+(* ---- Mode = "split": the same clauses over the annotation rows; the group of a cluster c is "c.sorted" so that the file of      *)
+(* the cluster is FileName("in.", "c.sorted") = in.c.sorted.bam                                                                 *)
+SA == SplitRel(sx.rows)
+SG == SplitGroups(sx.rows)
+SInp == SplitInp(inp, MapqReading = "filter")
+SOk == Done /\ raised = "" /\ ~SplitDup(sx.rows)
+Inv_X05s_Refused     == (Done /\ SplitDup(sx.rows)) => (raised = "Exception" /\ DOMAIN files = {})
+Inv_X05s_NoCrash     == (Done /\ ~SplitDup(sx.rows)) => raised = ""
+Inv_X05s_Files       == SOk => P_Files(SG, SStem, files)
+Inv_X05s_ExactlyOnce == (SOk /\ P_Files(SG, SStem, files)) => P_ExactlyOnce(SA, SInp, -1, SStem, files)
+Inv_X05s_Unselected  == SOk => (P_Unselected(SA, SInp, files) /\ P_NoStrangers(SInp, files))
+Inv_X05s_Content     == SOk => P_Content(SA, SInp, FALSE, "", files)
+Inv_X05s_Sorted      == SOk => P_Sorted(SInp, files)
+Inv_X05s_Header      == SOk => (\A f \in DOMAIN files : files[f].chr = sx.chr /\ files[f].rgids = InRG)
+Inv_X05s_Indexed     == SOk => sx.indexed = DOMAIN files
+Inv_X05s_Closed      == SOk => open = {}
+
 (* scenario generator: every initial choice with the final result of the design *)
 Emit == IF Done THEN PrintT("@@SCENARIO " \o ToJson([mode |-> Mode, sms |-> [i \in DOMAIN inp |-> inp[i].sm], asg |-> asg, lines |-> lines,
-                                                       head |-> head, wrg |-> wrg, prefix |-> Prefix, stem |-> Stem])) /\ FALSE
+                                                       head |-> head, wrg |-> wrg, prefix |-> Prefix, stem |-> Stem,
+                                                       recs |-> [i \in DOMAIN inp |-> [sm |-> inp[i].sm, dup |-> inp[i].dup, lowq |-> inp[i].lowq, pos |-> inp[i].pos]],
+                                                       rows |-> sx.rows, nocol |-> sx.nocol, chr |-> sx.chr])) /\ FALSE
         ELSE TRUE
 =====================================================================================================
